@@ -126,6 +126,27 @@ CHECKS = {
        "keyed by compiler message / shape of the emitted text.",
   tech="CPython compile() of every emitted module over TLC-enumerated inputs + mutants, judged by TLC",
   ref="DESIGN.md 9/C02"),
+ "C12": dict(
+  text="spec/Session.tla states determinism on request histories (the response is a function of the input alone); TLC enumerates "
+       "every history of length <= 3 over a pool of 6 stress inputs (R2); each history is replayed in one process of the real code, "
+       "and every input of a larger pool (programs stressing unordered collections, family programs, samples) is transpiled "
+       "repeatedly in one process, on concurrent threads and in fresh processes; TLC (spec/SessionJudge.tla) requires every "
+       "response (verdict and, on success, digest of the emitted bytes) to equal the input's isolated response.",
+  note="Hash orders cannot be forced from outside; repetition samples them (every HashMap/HashSet instance gets fresh keys). "
+       "The wording of diagnostics is not part of the response (the property fixes the verdict and the emitted bytes).",
+  tech="TLC-enumerated request histories replayed on the real code + repetition/threads/processes; TLC judges recorded responses",
+  ref="DESIGN.md 9/C12"),
+ "C13": dict(
+  text="spec/Project.tla defines what transpiling a directory must do (Expected: mirrored tree or nothing, files blamed = faulty "
+       "files of the first failing phase); spec/MC_Project.tla proves Expected invariant under permutation and unrelated additions "
+       "(R1) and emits every project of 1..N files over nested paths with cross-file uses and at most one lexical / syntax / type "
+       "fault, with all permutations (R2); the harness materialises each project, runs the real transpile_dir twice, snapshots "
+       "the tree, calls the pipeline with every permutation and an extra unrelated file; TLC (spec/ProjectJudge.tla) compares "
+       "verdict, tree, blamed files, per-file bytes across orders, written files vs pipeline output, write-after-all-checked "
+       "(guarded Read/Write events), second-run stability.",
+  note="Projects are materialised under $TMPDIR and removed. File names in diagnostics are read from the rendering's arrow line.",
+  tech="TLA+ project semantics; TLC-enumerated projects x permutations run on the real transpile_dir; TLC judges recorded trees and events",
+  ref="DESIGN.md 9/C13"),
 }
 
 PENDING_REASON = "check not built yet in this snapshot (work in progress; see DESIGN.md section 13)"
